@@ -15,6 +15,10 @@ TRUSTED = [
     "correspondence harness: harness/props/c17.py (generators, exact float -> rational conversion, rate of each "
     "configured model per pixel), harness/drivers/c17.py (calls the real models / pyxel.run_mode; pooch.retrieve is "
     "pointed at a local PNG for usaf_illumination)",
+    "translator/c17_life.py: the scan of pyxel/ for the Detector family and for the callers of detector.empty, the "
+    "three-valued interpretation of the `empty` bodies for reset = True / False (which statements empty a bucket) and "
+    "of the readout loops for both modes; that no other code empties or fills the buckets between the models (the "
+    "resulting table is compared with real detector.empty calls on every detector type on every run)",
     "translator/c17.py: the scan for clock readers under pyxel/models, the symbolic evaluation of the integrating "
     "models' bodies (which helpers are pure, which attributes are step-independent: geometry / characteristics / "
     "environment) and its CLASSIFICATION table (which readers are excluded as random / relaxation / bookkeeping); the "
@@ -64,14 +68,21 @@ def is_small_dyadic(f: Fraction) -> bool:
 # ------------------------------------------------------------------------------------------ generators
 
 
-def gen_det(r, need_even=False, small=False, dy=True):
+KINDS = ["ccd", "cmos", "mkid", "apd"]
+KIND_CLASS = {"ccd": "CCD", "cmos": "CMOS", "mkid": "MKID", "apd": "APD"}
+# dark_current_rule07 refuses anything but a CCD / CMOS (TypeError): a documented restriction of that model
+RULE07_KINDS = ["ccd", "cmos"]
+ROUTES = ["ctor", "set_times", "set_start", "set_both", "set_nd", "replace", "replace_times", "file", "string"]
+
+
+def gen_det(r, need_even=False, small=False, dy=True, kind=None, kinds=KINDS):
     hi = 4 if small else 8
     rows, cols = r.randrange(1, hi + 1), r.randrange(1, hi + 1)
     if r.random() < 0.5:  # bias towards small detectors (cost), the full 1..8 x 1..8 range stays reachable
         rows, cols = min(rows, r.randrange(1, 4)), min(cols, r.randrange(1, 5))
     if need_even:
         rows, cols = rows + rows % 2, cols + cols % 2
-    d = dict(kind=r.choice(["ccd", "ccd", "cmos"]), rows=rows, cols=cols, pv=H(r.choice([10.0, 15.0, 18.0])),
+    d = dict(kind=kind or r.choice(kinds), rows=rows, cols=cols, pv=H(r.choice([10.0, 15.0, 18.0])),
              ph=H(r.choice([10.0, 12.0])), temperature=H(r.choice([150.0, 200.0, 250.0, 300.0])),
              qe=H(r.choice([1.0, 0.5, 0.75])))
     # read-out chain (enters load_image(convert_to_photons=True) through system_gain); powers of two in the exact stream
@@ -214,8 +225,8 @@ def gen_model(r, kind, det, dy, variant=None):
     return m
 
 
-def gen_pipeline(r, dy, kinds=None):
-    """(det, models in pipeline order).  kinds = the rate models to use (else random)."""
+def gen_pipeline(r, dy, kinds=None, det_kind=None):
+    """(det, models in pipeline order).  kinds = the rate models to use (else random); det_kind = detector type."""
     if kinds is None:
         nph = r.choice([0, 1, 1, 2, 2, 3])
         kinds = [r.choice(PHOTON_KINDS) for _ in range(nph)]
@@ -223,7 +234,10 @@ def gen_pipeline(r, dy, kinds=None):
         kinds += [k for k in CHARGE_KINDS if r.random() < (0.45 if k != "dark_current_rule07" else 0.2)]
         if not kinds:
             kinds = [r.choice(RATE_MODELS)]
-    det = gen_det(r, need_even="stripe" in kinds, small=not dy, dy=dy)   # non-dyadic rationals are long: keep them few
+    if det_kind is not None and det_kind not in RULE07_KINDS:
+        kinds = [k for k in kinds if k != "dark_current_rule07"] or ["dark_current"]
+    det = gen_det(r, need_even="stripe" in kinds, small=not dy, dy=dy, kind=det_kind,   # non-dyadic rationals are long: keep them few
+                  kinds=RULE07_KINDS if "dark_current_rule07" in kinds else KINDS)
     ph = [gen_model(r, k, det, dy) for k in kinds if k in PHOTON_KINDS]
     gen = [gen_model(r, k, det, dy) for k in kinds if k in CHARGE_KINDS]
     if ph:
@@ -279,11 +293,30 @@ def rate_kind(m):
             "dark_current_rule07": "dark_current_rule07", "usaf_illumination": "usaf"}.get(k)
 
 
-def exposure_payload(det, models, start, times, nd, entry=None):
+def exposure_payload(det, models, start, times, nd, entry=None, route=None, dirty=None):
     p = dict(kind="exposure", det=det, models=models, start=H(start), times=[H(t) for t in times], nd=bool(nd))
     if entry == "exposure_mode":     # the deprecated public entry point (own copy of the readout loop)
         p["entry"] = entry
+    if route not in (None, "ctor"):  # how the Readout object gets its schedule (constructor unless said otherwise)
+        p["route"] = route
+    if dirty is not None:            # the detector object holds data from earlier use
+        p["dirty"] = H(dirty)
     return p
+
+
+def arithmetic(start, times):
+    return len(times) == 1 or len({b - a for a, b in zip(times, times[1:])}) == 1
+
+
+def gen_route(r, times, p_ctor=0.5):
+    """A way of establishing the schedule; the textual range form only for equally spaced times."""
+    if r.random() < p_ctor:
+        return None
+    return r.choice([x for x in ROUTES[1:] if x != "string" or arithmetic(None, times)])
+
+
+def gen_dirty(r):
+    return r.choice([5.0, 3.0, 0.5, 64.0]) if r.random() < 0.35 else None
 
 
 def gen_entry(r):
@@ -420,6 +453,17 @@ def build_scale(item, ra, rb):
             f"sc_frames_b := {core.clist(QL(f) for f in fb)} |}}")
 
 
+def build_sched(item, res):
+    """The Readout object the exposure ran with and the detector's readout properties: start, times, steps, mode."""
+    p = item["payloads"][0]
+    if "sched" not in res:
+        raise ValueError("the run raised: " + str(res.get("raise")))
+    obs = [f"{{| so_start := {Q(fr(o['start']))}; so_times := {QL(fr(t) for t in o['times'])}; "
+           f"so_steps := {QL(fr(t) for t in o['steps'])}; so_nd := {core.cbool(o['nd'])} |}}" for o in res["sched"]]
+    return (f"CSched {{| sh_tol := {Q(tol_of(item))}; sh_start := {Q(fr(p['start']))}; "
+            f"sh_times := {QL(fr(t) for t in p['times'])}; sh_nd := {core.cbool(p['nd'])}; sh_obs := {core.clist(obs)} |}}")
+
+
 def bucket_of(m):
     return "photon" if m["m"] in ("illumination", "load_image", "stripe_pattern", "usaf_illumination",
                                   "scene_collection") else "charge"
@@ -549,7 +593,7 @@ def provide(nm, det, m, aux, kw, n):
         return None if v is None else ("s", fr(v))
     if nm.startswith("call:"):
         base = nm[5:].split("#")[0]
-        if base == "load_cropped_and_aligned_image" and m["m"] in ("load_image", "load_charge", "usaf_illumination"):
+        if base == "load_cropped_and_aligned_image" and m["m"] in ("load_image", "load_charge", "usaf_illumination", "qe_map"):
             img = [fr(v) for v in (aux["image"] if "image" in aux else m["data"])]
             return ("p", img) if len(img) == n else None
         if base in ("calculate_illumination", "compute_pattern") and m["m"] in ("illumination", "stripe_pattern"):
@@ -604,6 +648,63 @@ def build_rate(item, res):
             f"rc_obs := {core.clist(QL(o) for o in obs)} |}}")
 
 
+def conv_row_of(kind, kw):
+    """(index, row, full kwargs) of the conv_table row whose option conditions hold for these keyword arguments."""
+    st = TABLE["st"]
+    if st is None or not st.get("conv_rows"):
+        raise Skip("no conversion table")
+    key = next((k for k, v in st["conv_models"].items() if v["kind"] == kind), None)
+    if key is None:
+        raise Skip(f"no conversion table entry for {kind}")
+    full = dict(st["conv_models"][key]["defaults"])
+    full.update(kw)
+    rows = [(i, r) for i, r in enumerate(st["conv_rows"]) if r["model"] == key and all(cond_true(c, full) for c in r["conds"])]
+    if len(rows) != 1:
+        raise Skip(f"{len(rows)} conversion rows match the options of {kind}")
+    return rows[0][0], rows[0][1], full
+
+
+def build_conv(item, res):
+    """The translated expression of a conversion / collection model, evaluated inside Coq on the actual source bucket
+    content and arguments, against what the implementation added to the sink bucket."""
+    p = item["payloads"][0]
+    det, m = p["det"], p["model"]
+    n = det["rows"] * det["cols"]
+    aux = res.get("aux", {})
+    idx, row, kw = conv_row_of(m["m"], decode_kw(aux.get("kw")))
+    names, bads = expr_vars(row["expr"])
+    if row.get("random") or bads:
+        raise Skip("the conversion row is not a deterministic arithmetic expression")
+    scal, pix = [], [[] for _ in range(n)]
+    for nm in names:
+        v = provide(nm, det, m, aux, kw, n)
+        if v is None:
+            raise Skip(f"no value for table variable {nm}")
+        if v[0] == "s":
+            scal.append(f"({core.cstr(nm)}, {Q(v[1])})")
+        else:
+            for i in range(n):
+                pix[i].append(f"({core.cstr(nm)}, {Q(v[1][i])})")
+    pre = p["prefill"]
+    zero = [H(0.0)] * n
+    e = res["steps"][0].get("prefilled")
+    if not e or "raise" in e:
+        raise ValueError(f"model call failed: {e}")
+    src = [fr(v) for v in (pre.get(row["src"]) or zero)]
+    before = [fr(v) for v in (pre.get(row["sink"]) or zero)]
+    after = [fr(v) for v in (e[row["sink"]] or zero)]
+    exact = exact_possible([m], [aux])
+    return (f"{{| cc_tol := {Q(tol_of(item, exact))}; cc_row := {idx}%nat; cc_env := {core.clist(scal)}; "
+            f"cc_pix := {core.clist(core.clist(x) for x in pix)}; cc_src := {QL(src)}; "
+            f"cc_obs := {QL(a - b for a, b in zip(after, before))} |}}")
+
+
+def emit_conv_file(lits) -> str:
+    body = ";\n  ".join(lits)
+    return (RATE_HEADER + f"Definition cases : list conv_case := [\n  {body}\n].\n"
+            "Eval vm_compute in conv_mismatches conv_table cases.\nEval vm_compute in conv_illposed conv_table cases.\n")
+
+
 RATE_HEADER = ("From Coq Require Import QArith List String.\nFrom PyxelV Require Import Model.Flux Model.FluxExpr.\n"
                "From PyxelGen Require Import Gen_C17.\nImport ListNotations.\nOpen Scope string_scope.\n"
                "Open Scope Q_scope.\n")
@@ -613,6 +714,33 @@ def emit_rate_file(lits) -> str:
     body = ";\n  ".join(lits)
     return (RATE_HEADER + f"Definition cases : list rate_case := [\n  {body}\n].\n"
             "Eval vm_compute in rate_mismatches rate_table cases.\nEval vm_compute in rate_illposed rate_table cases.\n")
+
+
+def build_life(item, res):
+    """detector.empty(arg) on a real detector of one type: which of photon / charge / pixel were emptied."""
+    p = item["payloads"][0]
+    cls = res.get("cls")
+    if not isinstance(cls, str):
+        raise ValueError(f"no detector class reported: {res}")
+    if "raise" in res:
+        obs = "None"
+    else:
+        b = res.get("buckets") or {}
+        if any(b.get(k) not in ("emptied", "kept") for k in ("photon", "charge", "pixel")):
+            raise ValueError(f"a bucket is neither emptied nor kept after detector.empty: {b}")
+        obs = "(Some (" + ", ".join(core.cbool(b[k] == "emptied") for k in ("photon", "charge", "pixel")) + "))"
+    arg = "EDefault" if p["arg"] == "default" else f"(EBool {core.cbool(bool(p['arg']))})"
+    return f"{{| lf_class := {core.cstr(cls)}; lf_arg := {arg}; lf_obs := {obs} |}}"
+
+
+LIFE_HEADER = ("From Coq Require Import QArith List String.\nFrom PyxelV Require Import Model.Flux Model.FluxDet.\n"
+               "From PyxelGen Require Import Gen_C17.\nImport ListNotations.\nOpen Scope string_scope.\n")
+
+
+def emit_life_file(lits) -> str:
+    body = ";\n  ".join(lits)
+    return (LIFE_HEADER + f"Definition cases : list life_case := [\n  {body}\n].\n"
+            "Eval vm_compute in life_mismatches det_table cases.\nEval vm_compute in life_violations cases.\n")
 
 
 HEADER = ("From Coq Require Import QArith List.\nFrom PyxelV Require Import Model.Flux.\n"
@@ -633,7 +761,8 @@ def call_items(ctx, r, n_extra, dy):
     items = []
     for kind in RATE_MODELS:
         for variant in list(VARIANTS[kind]) + [None] * n_extra:
-            det = gen_det(r, need_even=(kind == "stripe"), small=True, dy=dy)
+            det = gen_det(r, need_even=(kind == "stripe"), small=True, dy=dy,
+                          kinds=RULE07_KINDS if kind == "dark_current_rule07" else KINDS)
             m = gen_model(r, kind, det, dy, variant)
             n = det["rows"] * det["cols"]
             steps = []
@@ -665,15 +794,27 @@ def call_items(ctx, r, n_extra, dy):
             pl = dict(kind="call", det=det, model=m, steps=[H(gen_increment(r, dy)) for _ in range(2)],
                       time=H(5.0), prefill=pre, skip_empty=True)
             items.append(dict(type="lin", dy=dy, payloads=[pl], name=kind))
+            items.append(dict(type="conv", dy=dy, payloads=[pl], name=kind))
     return items
 
 
 def exposure_items(ctx, r, n_pair, n_scale, n_single, dy, kinds_list=()):
     items = []
     kinds_iter = list(kinds_list)
+    det_kinds = []
 
     def pipe():
-        return gen_pipeline(r, dy, kinds_iter.pop() if kinds_iter else None)
+        # the detector types in turn (shuffled per round), so that every type meets every kind of case
+        if not det_kinds:
+            det_kinds.extend(r.sample(KINDS, len(KINDS)))
+        ks = kinds_iter.pop() if kinds_iter else None
+        dk = det_kinds.pop()
+        if ks is not None and "dark_current_rule07" in ks and dk not in RULE07_KINDS:
+            dk = r.choice(RULE07_KINDS)
+        return gen_pipeline(r, dy, ks, dk)
+
+    def payload(det, models, start, times, nd):
+        return exposure_payload(det, models, start, times, nd, gen_entry(r), gen_route(r, times), gen_dirty(r))
 
     for _ in range(n_pair):
         det, models = pipe()
@@ -684,10 +825,10 @@ def exposure_items(ctx, r, n_pair, n_scale, n_single, dy, kinds_list=()):
         # several splittings of the same total: a random one, a second one, a fine one and the single readout
         ta = gen_partition(r, dy, start, end, r.randrange(2, 13))
         others = [gen_partition(r, dy, start, end, r.choice([2, 3, 5, 8])), gen_partition(r, dy, start, end, 12), [end]]
-        pa = exposure_payload(det, models, start, ta, True, gen_entry(r))
+        pa = payload(det, models, start, ta, True)
         items.append(dict(type="exp", dy=dy, payloads=[pa]))
         for tb in others:
-            pb = exposure_payload(det, models, start, tb, True, gen_entry(r))
+            pb = payload(det, models, start, tb, True)
             items += [dict(type="exp", dy=dy, payloads=[pb]), dict(type="pair", dy=dy, payloads=[pa, pb])]
     for _ in range(n_scale):
         det, models = pipe()
@@ -703,15 +844,88 @@ def exposure_items(ctx, r, n_pair, n_scale, n_single, dy, kinds_list=()):
                 tb.append(t)
             if tb[0] != 0.0:
                 break
-        pa = exposure_payload(det, models, sa, ta, False, gen_entry(r))
-        pb = exposure_payload(det, models, sb, tb, False, gen_entry(r))
+        pa = payload(det, models, sa, ta, False)
+        pb = payload(det, models, sb, tb, False)
         items += [dict(type="exp", dy=dy, payloads=[pa]), dict(type="exp", dy=dy, payloads=[pb])]
         if dy:  # with non-dyadic times the scaled steps are not exactly c times the steps: no exact premise
             items.append(dict(type="scale", dy=dy, c=H(c), payloads=[pa, pb]))
     for _ in range(n_single):
         det, models = pipe()
         s, ts = gen_times(r, dy)
-        items.append(dict(type="exp", dy=dy, payloads=[exposure_payload(det, models, s, ts, r.random() < 0.5, gen_entry(r))]))
+        if dy and r.random() < 0.3:      # an equally spaced schedule (what the textual range form can express)
+            d, n = gen_increment(r, dy), len(ts)
+            s = s if s + d != 0.0 else s + 0.25
+            ts = [s + d * (i + 1) for i in range(n)]
+        items.append(dict(type="exp", dy=dy, payloads=[payload(det, models, s, ts, r.random() < 0.5)]))
+    return items
+
+
+def matrix_items(r, exhaustive=False):
+    """On EVERY run: every detector type x both readout modes x both entry points (a 3-way split against the single
+    readout in non-destructive mode, a scaled schedule in destructive mode), alternately on a clean detector and on
+    one that holds data from earlier use; every route of establishing the schedule in both modes; and
+    detector.empty(default / True / False) called directly on every detector type."""
+    items = []
+    flip = 0
+    for kind in KINDS:
+        for entry in (None, "exposure_mode"):
+            det, models = gen_pipeline(r, True, [r.choice(["ill_uniform", "load_charge", "dark_current", "load_image"])], kind)
+            start = gen_start(r, True)
+            end = start + r.randrange(8, 49) / 8.0
+            end = end + 1.0 if end == 0.0 else end
+            ta, tb = gen_partition(r, True, start, end, 3), [end]
+            flip += 1
+            pa = exposure_payload(det, models, start, ta, True, entry, None, 5.0 if flip % 2 else None)
+            pb = exposure_payload(det, models, start, tb, True, entry, None, None if flip % 2 else 3.0)
+            items += [dict(type="exp", dy=True, payloads=[pa]), dict(type="exp", dy=True, payloads=[pb]),
+                      dict(type="pair", dy=True, payloads=[pa, pb])]
+            sa, tsa = gen_times(r, True, n=3)
+            c = r.choice([2.0, 0.5, 3.0])
+            while True:
+                sb = gen_start(r, True)
+                tsb, prev, t = [], sa, sb
+                for x in tsa:
+                    t = t + c * (x - prev)
+                    prev = x
+                    tsb.append(t)
+                if tsb[0] != 0.0:
+                    break
+            qa = exposure_payload(det, models, sa, tsa, False, entry, None, None if flip % 2 else 5.0)
+            qb = exposure_payload(det, models, sb, tsb, False, entry, None, 3.0 if flip % 2 else None)
+            items += [dict(type="exp", dy=True, payloads=[qa]), dict(type="exp", dy=True, payloads=[qb]),
+                      dict(type="scale", dy=True, c=H(c), payloads=[qa, qb])]
+    for route in ROUTES:
+        for nd in (True, False):
+            det, models = gen_pipeline(r, True, [r.choice(["ill_uniform", "load_charge"])])
+            s = gen_start(r, True)
+            d, n = gen_increment(r, True), r.choice([2, 3, 4])
+            if route == "string":
+                s = s if s + d != 0.0 else s + 0.25
+                ts = [s + d * (i + 1) for i in range(n)]
+            else:
+                s, ts = gen_times(r, True, n=n, start=s)
+            items.append(dict(type="exp", dy=True, payloads=[exposure_payload(det, models, s, ts, nd, gen_entry(r), route)]))
+    for kind in KINDS:
+        for arg in ("default", True, False):
+            det = gen_det(r, small=True, kind=kind)
+            items.append(dict(type="life", dy=True, payloads=[dict(kind="life", det=det, arg=arg)]))
+    if exhaustive:
+        # thorough tier: every route x detector type x readout mode x entry point (alternately a fresh / a reused detector)
+        for route in ROUTES:
+            for kind in KINDS:
+                for nd in (True, False):
+                    for entry in (None, "exposure_mode"):
+                        for dirty in ((None,) if (len(items) % 2) else (5.0,)):
+                            det, models = gen_pipeline(r, True, [r.choice(["ill_uniform", "load_charge", "dark_current"])], kind)
+                            s = gen_start(r, True)
+                            d, n = gen_increment(r, True), r.choice([2, 3])
+                            if route == "string":
+                                s = s if s + d != 0.0 else s + 0.25
+                                ts = [s + d * (i + 1) for i in range(n)]
+                            else:
+                                s, ts = gen_times(r, True, n=n, start=s)
+                            items.append(dict(type="exp", dy=True,
+                                              payloads=[exposure_payload(det, models, s, ts, nd, entry, route, dirty)]))
     return items
 
 
@@ -720,8 +934,30 @@ def refused_items(r):
     det, models = gen_pipeline(r, True, ["ill_uniform"])
     bad = [(0.0, [0.0, 1.0]), (-1.0, [0.0, 1.0]), (1.0, [1.0, 2.0]), (2.0, [1.0, 3.0]), (0.0, [1.0, 1.0]),
            (0.0, [1.0, 3.0, 2.0]), (0.0, [])]
-    return [dict(type="exp", dy=True, payloads=[exposure_payload(det, models, s, ts, nd)], refused=True)
-            for s, ts in bad for nd in (True,)]
+    out = [dict(type="exp", dy=True, payloads=[exposure_payload(det, models, s, ts, nd)], refused=True)
+           for s, ts in bad for nd in (True,)]
+    # the same through the other ways of establishing a schedule: the `times` setter of Readout does not check
+    # monotonicity - such a schedule must still be refused (by the detector's readout properties) before any model runs
+    via = [(0.0, [1.0, 3.0, 2.0], "set_times"), (0.0, [2.0, 1.0], "set_both"), (0.0, [1.0, 1.0], "set_times"),
+           (0.5, [1.0, 0.75, 2.0], "replace"), (0.0, [2.0, 2.0, 3.0], "replace_times"), (1.0, [3.0, 2.5], "file"),
+           (-1.0, [0.0, 1.0], "file"), (2.0, [1.0, 3.0], "set_start"), (0.0, [1.0, 3.0, 3.0], "set_nd")]
+    out += [dict(type="exp", dy=True, payloads=[exposure_payload(det, models, s, ts, r.random() < 0.5, gen_entry(r), route)],
+                 refused=True) for s, ts, route in via]
+    return out
+
+
+def sched_items(items):
+    """For the exposures already in the run (no extra driver work): the schedule carried by the Readout object
+    and by the detector - every exposure whose schedule was not simply given to the constructor, and every
+    third of the others."""
+    out, k = [], 0
+    for it in items:
+        if it["type"] != "exp" or it.get("refused"):
+            continue
+        k += 1
+        if it["payloads"][0].get("route") or k % 3 == 0:
+            out.append(dict(type="sched", dy=it.get("dy", True), payloads=it["payloads"]))
+    return out
 
 
 def corpus_items():
@@ -729,7 +965,7 @@ def corpus_items():
     out = []
     for f in sorted((core.VERIF / "harness" / "corpus" / "C17").glob("*.json")):
         c = json.loads(f.read_text())
-        if c.get("type") in ("exp", "pair", "scale", "inc", "lin", "rate") and c.get("payloads"):
+        if c.get("type") in ("exp", "pair", "scale", "inc", "lin", "rate", "life", "sched", "conv") and c.get("payloads"):
             out.append({k: c[k] for k in ("type", "dy", "payloads", "c", "refused", "name") if k in c})
     return out
 
@@ -764,6 +1000,8 @@ def evaluate(ctx: Ctx, items, tag="c", per=30):
         try:
             if it["type"] == "exp":
                 lits = [build_exp(it, rs[0])]
+            elif it["type"] == "sched":
+                lits = [build_sched(it, rs[0])]
             elif it["type"] == "pair":
                 lits = [build_pair(it, *rs)]
             elif it["type"] == "scale":
@@ -772,6 +1010,10 @@ def evaluate(ctx: Ctx, items, tag="c", per=30):
                 lits = [build_inc(it, rs[0])]
             elif it["type"] == "rate":
                 lits = [build_rate(it, rs[0])]
+            elif it["type"] == "life":
+                lits = [build_life(it, rs[0])]
+            elif it["type"] == "conv":
+                lits = [build_conv(it, rs[0])]
             else:
                 lits = build_lin(it, rs[0])
         except Skip as ex:
@@ -785,9 +1027,12 @@ def evaluate(ctx: Ctx, items, tag="c", per=30):
             recs.append(dict(item=it, lit=lit, results=rs, sub=j, mismatch=False, violation=False))
     files, chunks = {}, {}
     # keep files small: a case with many pixels and readouts is a long literal
-    for grp, emit in (("flux", emit_file), ("rate", emit_rate_file)):
+    def group_of(rec):
+        return rec["item"]["type"] if rec["item"]["type"] in ("rate", "life", "conv") else "flux"
+
+    for grp, emit in (("flux", emit_file), ("rate", emit_rate_file), ("life", emit_life_file), ("conv", emit_conv_file)):
         cur, size, k = [], 0, 0
-        for rec in [x for x in recs if (x["item"]["type"] == "rate") == (grp == "rate")]:
+        for rec in [x for x in recs if group_of(x) == grp]:
             cur.append(rec)
             size += len(rec["lit"])
             if len(cur) >= per or size > 600_000:
@@ -806,7 +1051,7 @@ def evaluate(ctx: Ctx, items, tag="c", per=30):
         if not ok or len(evals) != 2:
             ctx.broken.append(Broken("correspondence", f"case file {name}.v did not evaluate", core.tail(se, 15)))
             continue
-        is_rate = chunks[name][0]["item"]["type"] == "rate"
+        is_rate = chunks[name][0]["item"]["type"] in ("rate", "conv")
         for i in core.parse_int_list(evals[0]):
             chunks[name][i]["mismatch"] = True
         for i in core.parse_int_list(evals[1]):
@@ -819,6 +1064,8 @@ def evaluate(ctx: Ctx, items, tag="c", per=30):
 
 def model_names(it):
     ps = it["payloads"][0]
+    if ps.get("kind") == "life":
+        return ["detector.empty"]
     ms = ps["models"] if "models" in ps else [ps["model"]]
     out = []
     for m in ms:
@@ -841,6 +1088,10 @@ def clause_of(rec):
         if nm == "simple_collection":
             return "collection_not_accumulating"
         return "increment_differs_from_rate_times_step"
+    if t == "life":
+        return "bucket_lifecycle"
+    if t == "sched":
+        return "steps_differ_from_schedule"
     if t == "pair":
         return "partition_dependent"
     if t == "scale":
@@ -856,15 +1107,24 @@ def clause_of(rec):
 def describe(rec):
     it = rec["item"]
     p = it["payloads"][0]
-    if it["type"] in ("inc", "lin", "rate"):
+    kind = p["det"].get("kind", "ccd").upper()
+    if it["type"] == "life":
+        arg = "" if p["arg"] == "default" else str(bool(p["arg"]))
+        return f"{kind}.empty({arg}) on a detector whose photon, charge and pixel buckets hold data"
+    if it["type"] in ("inc", "lin", "rate", "conv"):
         return (f"{p['model']['m']} called with time steps {[float.fromhex(s) for s in p['steps']]} on a "
-                f"{p['det']['rows']}x{p['det']['cols']} detector")
+                f"{p['det']['rows']}x{p['det']['cols']} {kind} detector")
+
+    def extras(q):
+        return ((" (pyxel.exposure_mode)" if q.get("entry") else "") + (f" schedule via {q['route']}" if q.get("route") else "")
+                + (" on a detector holding earlier data" if q.get("dirty") else ""))
+
     ts = [float.fromhex(t) for t in p["times"]]
-    s = (f"{'non-destructive' if p['nd'] else 'destructive'} exposure{' (pyxel.exposure_mode)' if p.get('entry') else ''} start={float.fromhex(p['start'])} times={ts} "
-         f"models={model_names(it)} on {p['det']['rows']}x{p['det']['cols']}")
+    s = (f"{'non-destructive' if p['nd'] else 'destructive'} exposure{extras(p)} start={float.fromhex(p['start'])} times={ts} "
+         f"models={model_names(it)} on {p['det']['rows']}x{p['det']['cols']} {kind}")
     if len(it["payloads"]) > 1:
         q = it["payloads"][1]
-        s += f" versus start={float.fromhex(q['start'])} times={[float.fromhex(t) for t in q['times']]}"
+        s += f" versus{extras(q)} start={float.fromhex(q['start'])} times={[float.fromhex(t) for t in q['times']]}"
     return s
 
 
@@ -878,6 +1138,10 @@ EXPECTED = {
     "destructive_not_proportional": "frames of the scaled schedule = c * frames",
     "nondestructive_closed_form": "pixel at readout i = (total rate) * (t_i - start)",
     "destructive_frame_closed_form": "frame i = (total rate) * (t_i - t_(i-1))",
+    "bucket_lifecycle": "detector.empty(reset) empties photon and charge, and pixel exactly when reset is True (default True), "
+                        "on every detector type",
+    "steps_differ_from_schedule": "the Readout object and the detector's readout properties carry the requested start, times "
+                                  "and mode, and steps = diff([start] + times), however the schedule was established",
     "valid_exposure_raised": "an accepted schedule with valid models runs",
     "invalid_schedule_accepted": "the schedule is refused",
 }
@@ -887,10 +1151,13 @@ def to_violation(rec) -> Violation:
     it = rec["item"]
     clause = clause_of(rec)
     res = rec["results"]
-    obs = [{k: v for k, v in x.items() if k in ("pixel", "raise", "msg")} if it["type"] in ("exp", "pair", "scale")
-           else x["steps"] for x in res]
+    obs = [{k: v for k, v in x.items() if k in ("pixel", "raise", "msg", "sched")} if it["type"] in ("exp", "pair", "scale", "sched")
+           else ({k: v for k, v in x.items() if k in ("cls", "buckets", "raise", "msg")} if it["type"] == "life" else x["steps"])
+           for x in res]
     stream = "dyadic" if it.get("dy", True) else "nondyadic_tol1e-9"
     sig = dict(clause=clause, models=sorted(set(model_names(it))), stream=stream)
+    if it["type"] == "life":
+        sig["detector"] = it["payloads"][0]["det"].get("kind", "ccd")
     case = dict(type=it["type"], dy=it.get("dy", True), payloads=it["payloads"], sub=rec.get("sub", 0))
     for k in ("c", "refused", "name"):
         if k in it:
@@ -943,6 +1210,9 @@ def reductions(p):
                   dict(p, times=p["times"][:-1])]
     elif n == 2:
         cands.append(dict(p, times=p["times"][:1]))
+    for opt in ("route", "dirty", "entry"):    # the plain way of running it
+        if p.get(opt):
+            cands.append({k: v for k, v in p.items() if k != opt})
     t = tiny_payload(p)
     if t is not None:
         cands.append(t)
@@ -980,6 +1250,15 @@ def collect(ctx: Ctx, recs, shrink=True):
         it = rec["item"]
         if rec["violation"]:
             by_clause.setdefault(clause_of(rec), []).append(rec)
+        elif rec["mismatch"] and it["type"] == "life":
+            ctx.broken.append(Broken("correspondence", "translated bucket lifecycle (Gen_C17.det_table) vs implementation",
+                                     "what the table read from the source says detector.empty does differs from what it "
+                                     "did: " + describe(rec), dict(type=it["type"], payloads=it["payloads"])))
+        elif rec["mismatch"] and it["type"] == "conv":
+            ctx.broken.append(Broken("correspondence", "translated conversion expression (Gen_C17.conv_table) vs implementation",
+                                     "the expression read from the source, evaluated in Coq on the actual bucket content, "
+                                     "differs from what the model added (or the case is ill-posed): " + describe(rec),
+                                     dict(type=it["type"], payloads=it["payloads"])))
         elif rec["mismatch"] and it["type"] == "rate":
             ctx.broken.append(Broken("correspondence", "translated increment expression (Gen_C17.rate_table) vs implementation",
                                      "the expression read from the source, evaluated in Coq on the actual arguments, differs "
@@ -993,7 +1272,8 @@ def collect(ctx: Ctx, recs, shrink=True):
     # written by core.finish cover different clauses
     def size(rec):
         p = rec["item"]["payloads"][0]
-        return (len(p.get("models", [0])), len(p.get("times", p.get("steps", []))), p["det"]["rows"] * p["det"]["cols"])
+        return (len(p.get("models", [0])), len(p.get("times", p.get("steps", []))), p["det"]["rows"] * p["det"]["cols"],
+                1 if p.get("route") else 0, 1 if p.get("dirty") else 0)
     for cl in by_clause:
         by_clause[cl].sort(key=size)
     order = []
@@ -1020,7 +1300,19 @@ def coverage(ctx: Ctx, recs):
         ctx.dist("case_type", t)
         ctx.dist("stream", "dyadic_exact" if it.get("dy", True) else "nondyadic_tol_1e-9")
         p = it["payloads"][0]
+        if t == "life":
+            ctx.dist("detector_empty_called", f"{p['det'].get('kind')}.empty({'' if p['arg'] == 'default' else p['arg']})")
+            seen.add(json.dumps([t, it["payloads"]], sort_keys=True))
+            continue
+        if t == "sched":
+            ctx.dist("schedule_object_judged", p.get("route", "ctor"))
+            seen.add(json.dumps([t, it["payloads"]], sort_keys=True))
+            continue
         if t in ("exp", "pair", "scale"):
+            for q in it["payloads"]:
+                ctx.dist("detector_x_mode_x_entry", f"{q['det'].get('kind', 'ccd')}/{'nd' if q['nd'] else 'destr'}/{q.get('entry', 'run_mode')}")
+                ctx.dist("schedule_route", q.get("route", "ctor") + ("/nd" if q["nd"] else "/destr"))
+                ctx.dist("detector_state_before", "holds earlier data" if q.get("dirty") else "fresh")
             ctx.dist("readouts", len(p["times"]))
             ctx.dist("geometry", f"{p['det']['rows']}x{p['det']['cols']}")
             ctx.dist("mode", "non_destructive" if p["nd"] else "destructive")
@@ -1048,8 +1340,8 @@ def coverage(ctx: Ctx, recs):
                 opts = [k for k in ("time_scale", "multiplier", "convert", "position", "align", "data_shape", "angle",
                                     "band_gap", "cutoff", "object_center") if mm.get(k) not in (None, False)]
                 ctx.dist("options_called", mm["m"] + "(" + ",".join(opts) + ")")
-            if t == "rate":
-                ctx.dist("rate_case", "judged in Coq against the translated row")
+            if t in ("rate", "conv"):
+                ctx.dist("rate_case" if t == "rate" else "conv_case", "judged in Coq against the translated row")
             nontrivial = True
         if nontrivial:
             seen.add(json.dumps([t, it["payloads"], rec.get("sub", 0)], sort_keys=True))
@@ -1069,6 +1361,9 @@ def run(ctx: Ctx):
         "exact stream: dyadic times, levels, file values, time scales (powers of two), QE; equality is exact. "
         "Non-dyadic stream: relative tolerance 1e-9, reported separately in the distribution",
         "stripe_pattern only on even detector shapes (it returns a smaller array on odd shapes - outside this property)",
+        "detector types CCD, CMOS, MKID, APD (dark_current_rule07 only on CCD / CMOS: it refuses the others); the detector "
+        "object is fresh or holds data from earlier use; the schedule reaches the Readout object through its "
+        "constructor, its setters, replace(), a file or a range string",
     ]
     proof_ok = translator_leg(ctx)
 
@@ -1076,14 +1371,17 @@ def run(ctx: Ctx):
     q = ctx.quick
     items = corpus_items()
     ctx.cov["corpus_cases"] = len(items)
+    items += matrix_items(ctx.rng("matrix"), exhaustive=not q)
     items += call_items(ctx, r, 2 if q else 12, True)
     items += call_items(ctx, ctx.rng("calls-nd"), 0 if q else 6, False)
     singles_and_full = [[k] for k in RATE_MODELS] + [list(RATE_MODELS)]
     subsets = singles_and_full if q else all_subsets()
     r.shuffle(subsets)
-    items += exposure_items(ctx, r, 24 if q else 240, 24 if q else 200, 16 if q else 160, True, subsets)
-    items += exposure_items(ctx, ctx.rng("exp-nd"), 8 if q else 50, 6 if q else 40, 6 if q else 40, False)
+    # (the matrix block above adds 16 pairs / 16 scaled pairs / 18 routed exposures to these on every run)
+    items += exposure_items(ctx, r, 20 if q else 240, 20 if q else 200, 12 if q else 160, True, subsets)
+    items += exposure_items(ctx, ctx.rng("exp-nd"), 6 if q else 50, 5 if q else 40, 5 if q else 40, False)
     items += refused_items(r)
+    items += sched_items(items)
     recs = evaluate(ctx, items)
     seen = coverage(ctx, recs)
     ctx.cov["distinct_nontrivial"] = len(seen)
@@ -1105,6 +1403,8 @@ def run(ctx: Ctx):
         ctx.cov["coqchk"] = "ok" if ok else "FAILED"
         if not ok:
             ctx.broken.append(Broken("theorem", "coqchk of Properties/C17.v", core.tail(out, 20)))
+    if not proof_ok:
+        rejected_lifecycle(ctx)
     if ctx.broken and not new_violations(ctx):
         search(ctx, focus=[] if proof_ok else rejected_rows(ctx))
 
@@ -1123,15 +1423,52 @@ def translator_leg(ctx: Ctx) -> bool:
     ctx.cov["translator"] = dict(time_readers=len(st["readers"]), integrating_models=len(st["integrating"]),
                                  expression_shaped=len(st["expr_models"]), excluded_models=len(st["excluded"]),
                                  rate_table_rows=len(st["rows"]),
-                                 deterministic_rows=sum(1 for x in st["rows"] if not x.get("random")))
+                                 deterministic_rows=sum(1 for x in st["rows"] if not x.get("random")),
+                                 conversion_rows=len(st.get("conv_rows", [])),
+                                 deterministic_conversion_rows=sum(1 for x in st.get("conv_rows", []) if not x.get("random")),
+                                 detector_classes=[c["name"] + ("" if c["empty"] is None else " (own empty)") for c in st["family"]],
+                                 readout_loops=[lp["name"] for lp in st["loops"]])
+    known = set(KIND_CLASS.values()) | {"Detector"}
+    ctx.cov["detector_classes_not_exercised"] = sorted(c["name"] for c in st["family"] if c["name"] not in known)
     return core.proof_leg(ctx, {"Gen_C17.v": tr.render(st)}, PROP_FILE)
+
+
+def rejected_lifecycle(ctx: Ctx):
+    """Log the detector classes / readout loops of the regenerated tables that the lifecycle check rejects."""
+    text = ("From Coq Require Import List String.\nFrom PyxelV Require Import Model.FluxDet.\n"
+            "From PyxelGen Require Import Gen_C17.\nImport ListNotations.\nOpen Scope string_scope.\n"
+            "Set Printing Depth 100000.\nEval vm_compute in bad_classes det_table.\n"
+            "Eval vm_compute in bad_loops det_table loop_table.\n")
+    ctext = ("From Coq Require Import List.\nFrom PyxelV Require Import Model.FluxExpr.\n"
+             "From PyxelGen Require Import Gen_C17.\nImport ListNotations.\nEval vm_compute in bad_conv_rows conv_table.\n")
+    okc, evc, _ = core.coq_eval(ctx, "bad_conv", ctext)
+    st = TABLE["st"]
+    if okc and evc and st is not None:
+        for i in core.parse_int_list(evc[0]):
+            if i < len(st.get("conv_rows", [])):
+                row = st["conv_rows"][i]
+                ctx.log(f"conversion row rejected (not [a step-independent factor] * {row['src']}): {row['model']} "
+                        f"[{' & '.join(row['conds']) or 'always'}]")
+                ctx.cov.setdefault("rejected_conv_rows", []).append(f"{row['model']}: {' & '.join(row['conds'])}")
+    ok, evals, se = core.coq_eval(ctx, "bad_lifecycle", text)
+    if not ok or len(evals) != 2:
+        return
+    import re
+
+    names = [re.findall(r'"([^"]*)"', e) for e in evals]
+    for n in names[0]:
+        ctx.log(f"detector class rejected: {n}.empty(reset) does not (empty photon and charge, and pixel exactly when reset)")
+    for n in names[1]:
+        ctx.log(f"readout loop rejected: {n} does not (reset the detector before the loop and pass reset = destructive inside)")
+    ctx.cov["rejected_lifecycle"] = dict(classes=names[0], loops=names[1])
 
 
 def rejected_rows(ctx: Ctx):
     """The rows of the regenerated table that are neither linear in the time step nor random (evaluated in Coq):
     [(model kind, option conditions)] for the failing-input search."""
-    text = ("From Coq Require Import List.\nFrom PyxelV Require Import Model.FluxExpr.\n"
-            "From PyxelGen Require Import Gen_C17.\nEval vm_compute in bad_rows rate_table.\n")
+    text = ("From Coq Require Import List.\nFrom PyxelV Require Import Model.FluxExpr.\n"      # (without the list
+            "From PyxelGen Require Import Gen_C17.\nImport ListNotations.\n"                    # notations an empty
+            "Eval vm_compute in bad_rows rate_table.\n")                                        # list prints as `nil`)
     ok, evals, se = core.coq_eval(ctx, "bad_rows", text)
     st = TABLE["st"]
     if not ok or not evals or st is None:
@@ -1217,7 +1554,7 @@ def replay(ctx: Ctx, rp: dict) -> int:
         print(rp.get("detail", ""))
         return 1
     core.ensure_lib(ctx, targets=core.lib_targets_of([(core.THEORIES / PROP_FILE).read_text()]))
-    if case.get("type") == "rate":
+    if case.get("type") in ("rate", "life", "conv"):
         translator_leg(ctx)
     it = copy.deepcopy(case)
     recs = evaluate(ctx, [it], tag="replay")
@@ -1248,12 +1585,22 @@ META = dict(
         "(illumination, load_image, usaf_illumination, stripe_pattern, load_charge, dark_current, dark_current_rule07) the "
         "quantity added to the bucket is read symbolically for every option branch, and Coq proves over the regenerated "
         "table that every deterministic branch is (value at unit step)*time_step for all argument values, is additive "
-        "over any split of the step, and is a PhotonRate/ChargeRate op of the exposure model; (c) the Readout.__init__ "
-        "refusals read from the source accept exactly valid_schedule. That the helpers treated as step-independent are "
+        "over any split of the step, and is a PhotonRate/ChargeRate op of the exposure model; (c) the refusals of "
+        "Readout.__init__ and of the detector's ReadoutProperties.__init__ read from the source accept exactly "
+        "valid_schedule; (d) what simple_conversion / conversion_with_qe_map / simple_collection add to their sink is read "
+        "symbolically over the content of their source bucket, and Coq proves that every deterministic branch is the "
+        "Convert / Collect op of the model (a step-independent factor times the photons; the charge itself); (e) the "
+        "Detector family (every class, what each own `empty(reset)` empties for both values and what it passes to its "
+        "parent) and every function that calls detector.empty (the empties before the readout loop, the argument inside it "
+        "for both modes) are read from the source, and Coq proves that on every detector class, by every loop, from any "
+        "initial bucket content, the exposure is the modelled one - so the partition / proportionality theorems hold "
+        "for every detector type. That the helpers treated as step-independent are "
         "so, that the translated rows describe what the code does, and the exposure loop itself, are established by "
         "correspondence (= testing): each real model with every option variant is called with several time steps and "
         "judged inside Coq (K-free proportionality, closed-form rate, the translated row evaluated on the actual "
-        "arguments); real pyxel.run_mode exposures under several partitions of the same interval, and under scaled "
+        "arguments; conversions likewise; detector.empty(default/True/False) on every detector type against the translated "
+        "table); real pyxel.run_mode / exposure_mode exposures on every detector type (fresh or reused), the schedule given "
+        "through every route (the Readout's and the detector's start, times, steps, mode judged in Coq), under several partitions of the same interval, and under scaled "
         "destructive schedules, are judged inside Coq against the model trace, the closed forms, and each other."),
     level_note=(
         "Trusted: Coq kernel + vm_compute; the harness, driver and translator (its symbolic evaluator and classification "
